@@ -461,3 +461,34 @@ func (bc *boundsCtx) bySearchResult(base ast.Expr, need needLen, facts []cfgx.Fa
 	}
 	return "", false
 }
+
+// byDecodeWidth (T10): a slice bound that is the width answered by utf8.DecodeRune[InString] / DecodeLastRune[InString]
+// for the same, unchanged base is within 0..len(base) (the package's contract: the width of the decoded rune, 0 only for
+// an empty input, never more than what is there).
+func (bc *boundsCtx) byDecodeWidth(base ast.Expr, need needLen) (string, bool) {
+	if need.Idx == nil || need.Off != 0 || !need.Slice {
+		return "", false
+	}
+	iv := core.VarOf(bc.info, need.Idx)
+	if iv == nil {
+		return "", false
+	}
+	defs := core.DefsOf(bc.info, bc.f.Root().Body, iv)
+	if len(defs) != 1 || defs[0].Index != 1 || defs[0].Rhs == nil {
+		return "", false
+	}
+	call, ok := ast.Unparen(defs[0].Rhs).(*ast.CallExpr)
+	if !ok || len(call.Args) != 1 || !core.SameRef(bc.info, call.Args[0], base) {
+		return "", false
+	}
+	switch core.CalleeName(bc.info, call) {
+	case "unicode/utf8.DecodeRuneInString", "unicode/utf8.DecodeRune":
+	default:
+		return "", false
+	}
+	st, _ := defs[0].Stmt.(ast.Stmt)
+	if st == nil || !bc.stableBetween(st, bc.at, base) {
+		return "", false
+	}
+	return "T10 the bound is the width " + core.ExprStr(call.Fun) + " answered for the same base, which is not written in between", true
+}
